@@ -495,9 +495,40 @@ def r10(ctx, facts):
         raise AnchorLost("no writer of PoolRefiller.current_keyspace found")
 
 
+SWALLOWING = ("ok", "err", "transpose", "unwrap_or", "unwrap_or_default", "unwrap_or_else", "or", "or_else", "flatten", "is_ok", "is_err",
+              "map_or", "map_or_else", "unwrap", "expect", "and", "and_then", "timeout", "timeout_at", "is_some", "is_none")
+
+
+def r11(ctx, facts):
+    """a connection opened after the keyspace was set is handed to the pool as `set up` only if the server ANSWERED its USE with
+    success. The setup future reports `use_keyspace(..).await` itself (mapped, not re-interpreted): any adapter that can turn
+    `no answer` / an error into `Ok` publishes a connection on which the keyspace is not set (seed C20-k: a timeout folded into Ok)."""
+    r = ctx.rule("R11", "the keyspace setup of a fresh connection reports success only if use_keyspace() returned Ok", floor=1)
+    bs = facts.find(r"^scylla::network::connection_pool::PoolRefiller::start_setting_keyspace_for_connection::\{closure#0\}$")
+    if len(bs) != 1:
+        raise AnchorLost("start_setting_keyspace_for_connection future not found")
+    b = bs[0]
+    n = 0
+    for bb in sorted(b.live_blocks):
+        for st in b.stmts(bb):
+            if st[0] == "A" and st[2][0] == "agg" and st[2][1][0] == "adt" and st[2][1][1].endswith("OpenedConnectionEvent") and "result" in (st[2][1][4] or []):
+                n += 1
+                op = st[2][2][st[2][1][4].index("result")]
+                locs, calls, _ = backward_slice(b, op)
+                names = [(c.name or c.decl or "?").split("::")[-1] for c in calls]
+                has_use = any(nm == "use_keyspace" for nm in names)
+                bad = sorted(set(names) & set(SWALLOWING))
+                r.instance("setup-result-is-the-use-result", has_use and not bad,
+                           "the result reported for the fresh connection %s: a USE that failed or was never answered can come out as a successful setup, "
+                           "and the connection is published without the session keyspace" % (
+                               "goes through %s" % bad if bad else "does not derive from use_keyspace()"), b.stmt_span(st))
+    if n == 0:
+        raise AnchorLost("no OpenedConnectionEvent built by the keyspace setup future")
+
+
 def check(ctx):
     facts = inline_view(ctx.facts("default"))
-    for fn in (r1, r2, r3, r4, r5, r6, r7, r8, r9, r10):
+    for fn in (r1, r2, r3, r4, r5, r6, r7, r8, r9, r10, r11):
         try:
             fn(ctx, facts)
         except AnchorLost as ex:
